@@ -103,7 +103,7 @@ def check(run):
     run.extra.update({"alphabet": SIGMA, "max_length_exhaustive": L, "strings": len(strs), "garbage_inputs": len(garb), "long_inputs": len(longs),
                       "entry_point_calls": calls, "accepted_values_observed": accepted, "cli_executions": len(cliruns),
                       "slowest_call_ms_n_name": list(slowest)})
-    run.assumptions = ["'at most quadratic' is checked as a budget (3 s + 2 ms per (n/1000)^2), not proved: it detects hangs and cubic or worse blow-ups",
+    run.assumptions = ["'at most quadratic' is checked as a budget (5 s + 2 ms per (n/1000)^2; a call over 1 s is measured three times and the minimum counts), not proved: it detects hangs and cubic or worse blow-ups",
                        "memory-level faults other than Go panics are not observable; a NUL byte cannot be passed in a CLI argument vector (OS limit)",
                        "beyond length %d the inputs are seeded structured garbage and long runs, not exhaustive; the coverage-guided fuzz corpus of the design is not used" % L]
     return vlib.finish(run, rule="all byte strings of length <= %d over a 20-byte syntax alphabet x (20 NewVersion + 20 NewVersionRange + vers.Contains as range/probe/mixed for 11 schemes + whole string) + seeded garbage + long-run families x lengths up to 100k; CLI: every string of length <= 2 in every argument position" % L,
